@@ -298,7 +298,9 @@ class Ctx:
 
 
 def load_known(pid):
-    path = os.path.join(ROOT, 'known_findings.json')
+    """Active (status == "known") findings of one property, from the
+    committed file known_findings/<ID>.json; never written at run time."""
+    path = os.path.join(ROOT, 'known_findings', pid + '.json')
     out = {}
     if os.path.exists(path):
         for e in json.load(open(path)).get('findings', []):
